@@ -100,7 +100,7 @@ func init() {
 
 var c15MainFaults = []string{"good", "missing", "directory", "empty", "malformed", "wrong-shape", "binary", "unreadable"}
 var c15PersonalFaults = []string{"absent", "good", "empty", "malformed", "directory", "unreadable"}
-var c15BackupFaults = []string{"absent", "good", "malformed"}
+var c15BackupFaults = []string{"absent", "good", "malformed", "empty"}
 
 var c15MainCmds = []database.Command{
 	{Command: "tar -czf out.tgz dir", Description: "compress a directory", Keywords: []string{"archive"}},
@@ -170,6 +170,17 @@ func c15Judge(mainF, persF, backF string, cfg c15Config, out c15Outcome) string 
 		if !out.Searchable {
 			return "fallback database cannot be searched (" + where + ")"
 		}
+		// "a non-empty built-in fallback": nothing read from the files on disk
+		for _, c := range out.Commands {
+			if c[0] == "backup entry" {
+				return "the fallback is the content of the .backup file, not the built-in database (" + where + ")"
+			}
+			for _, m := range append(append([]database.Command{}, c15MainCmds...), c15PersonalCmds...) {
+				if c[0] == m.Command {
+					return fmt.Sprintf("the fallback database contains %q from the files on disk although they did not load together (%s)", c[0], where)
+				}
+			}
+		}
 	}
 	maxA := cfg.MaxAttempts
 	if maxA < 1 {
@@ -207,7 +218,7 @@ func c15Judge(mainF, persF, backF string, cfg c15Config, out c15Outcome) string 
 
 func TestC15_Matrix(t *testing.T) {
 	rec := stat.For("C15")
-	rec.Rule("fault enumeration: every combination of main in {good, missing, directory, empty, malformed, wrong-shape, binary, unreadable} x personal in {absent, good, empty, malformed, directory, unreadable} x backup in {absent, good, malformed} (144 combinations, complete per configuration) x retry configurations drawn by rapid (attempts 0..6, base 0..3ms, factor 1..4, cap 0..10ms incl. cap < base). Unreadable files are loaded in a child under uid 65534. Oracle: db != nil and err == nil; both files fine => main entries then notebook entries; else non-empty searchable fallback; attempts via the observer hook: success 1, missing/permission-denied 1, otherwise <= max(1,configured); waits non-decreasing and <= cap. Non-trivial = at least one faulty file.")
+	rec.Rule("fault enumeration: every combination of main in {good, missing, directory, empty, malformed, wrong-shape, binary, unreadable} x personal in {absent, good, empty, malformed, directory, unreadable} x backup in {absent, good, malformed, empty} (192 combinations, complete per configuration) x retry configurations drawn by rapid (attempts 0..6, base 0..3ms, factor 1..4, cap 0..10ms incl. cap < base). Unreadable files are loaded in a child under uid 65534. Oracle: db != nil and err == nil; both files fine => main entries then notebook entries; else non-empty searchable fallback; attempts via the observer hook: success 1, missing/permission-denied 1, otherwise <= max(1,configured); waits non-decreasing and <= cap. Non-trivial = at least one faulty file.")
 	rec.Set("exhaustive", true)
 	self, _ := os.Executable()
 	_ = self
